@@ -6,6 +6,7 @@ import (
 	"archive/zip"
 	"bufio"
 	"bytes"
+	"context"
 	"crypto"
 	"crypto/ecdsa"
 	"crypto/elliptic"
@@ -15,6 +16,7 @@ import (
 	"encoding/json"
 	"fmt"
 	"io"
+	"math/big"
 	"net/url"
 	"os"
 	"path/filepath"
@@ -28,6 +30,7 @@ import (
 	"github.com/sassoftware/relic/v8/cmdline/shared"
 	"github.com/sassoftware/relic/v8/config"
 	"github.com/sassoftware/relic/v8/token/open"
+	"github.com/sassoftware/relic/v8/verifapi"
 
 	"verif/harness/internal/certs"
 	"verif/harness/internal/cmsx"
@@ -43,6 +46,7 @@ type cfgT struct {
 	BlobFor string `json:"blobFor"`
 	PgpFor  string `json:"pgpFor"`
 	Path    string `json:"path"`
+	Prior   string `json:"prior"`
 }
 
 type beh struct {
@@ -116,8 +120,15 @@ func writePgp(path, name string, key crypto.Signer) error {
 
 func newWorld(dir string) *world {
 	w := &world{dir: dir, ids: map[string]*ident{}}
-	for _, n := range []string{"rsaA", "rsaB", "p256A", "p256B", "p384A"} {
+	for _, n := range []string{"rsaA", "rsaB", "p256A", "p256Aneg", "p256B", "p384A"} {
 		id := &ident{key: newKey(n)}
+		if n == "p256Aneg" {
+			// the negated point of p256A: private key n-d, public point (X, p-Y)
+			a := w.ids["p256A"].key.(*ecdsa.PrivateKey)
+			d := new(big.Int).Sub(a.Curve.Params().N, a.D)
+			x, y := a.Curve.ScalarBaseMult(d.Bytes())
+			id.key = &ecdsa.PrivateKey{PublicKey: ecdsa.PublicKey{Curve: a.Curve, X: x, Y: y}, D: d}
+		}
 		id.root = certs.New(certs.Opt{CN: n + " root", CA: true}, nil)
 		id.inter = certs.New(certs.Opt{CN: n + " intermediate", CA: true}, id.root)
 		id.leaf = certs.New(certs.Opt{CN: n + " leaf", EKU: []x509.ExtKeyUsage{x509.ExtKeyUsageCodeSigning}, Key: id.key}, id.inter)
@@ -204,6 +215,18 @@ func replayOne(r *res.Result, w *world, b *beh, n int) {
 	}
 	shared.CurrentConfig = cfg
 	faketoken.Reset()
+	if c.Prior == "rightful" {
+		// earlier in this process the same certificate file was loaded for the key it belongs to
+		rightful := w.ids[c.X509For].key
+		faketoken.For("t1").Set(func(s *faketoken.Script) { s.Signer = func(string) crypto.Signer { return rightful } })
+		if tok0, err := open.Token(cfg, "t1", nil); err == nil {
+			if _, _, err := verifapi.InitKey(context.Background(), tok0, "thekey"); err != nil && c.Order != "leafLast" && c.Order != "leafMiddle" {
+				r.Note("prior rightful load of %+v failed: %v", c, err)
+			}
+			tok0.Close()
+		}
+		faketoken.Reset()
+	}
 	priv := w.ids[c.Priv].key
 	faketoken.For("t1").Set(func(s *faketoken.Script) {
 		s.Signer = func(string) crypto.Signer { return priv }
